@@ -23,7 +23,9 @@ family() {
 for item in "$@"; do
   set -- $item
   # second wave: "C06 A" from /tmp/seed2 is stored as C06-C, B as C06-D
-  if [ "${SEED_ROOT:-/tmp/seed}" = /tmp/seed2 ]; then export OUT_VARIANT=$(echo $2 | tr AB CD); else unset OUT_VARIANT; fi
+  if [ "${SEED_ROOT:-/tmp/seed}" = /tmp/seed2 ]; then export OUT_VARIANT=$(echo $2 | tr AB CD);
+  elif [ "${SEED_ROOT:-/tmp/seed}" = /tmp/seed3 ]; then export OUT_VARIANT=$(echo $2 | tr AB EF);
+  else unset OUT_VARIANT; fi
   echo "=== $1 $2 $(date +%H:%M:%S)"
   if [ $ALL = 1 ]; then /verif/tools/seed_eval.sh $1 $2 2>&1 | tail -3
   else
